@@ -15,7 +15,8 @@ MSG   = `{"t":"append",…} | {"t":"chunk",…} | {"t":"snap",…} | {"t":"apply
 OUT   = `["send",dst,MSG] | ["cb",id,code] | ["addNode",n] | ["dropNode",n]`
 
 ops: `send` (one destination), `sendall`, `check`, `submit`, `recv_apply`, `recv_response`,
-`leader_changed`, `fappend`, `restore`, `reapply`, `chunks`, `fold`, `admin_remove`, `rounds`, `journalfold`, `capture`
+`leader_changed`, `fappend`, `restore`, `reapply`, `chunks`, `fold`, `admin_remove`, `rounds`, `journalfold`, `capture`, `appendmsg` (the whole `append_entries` handler: `extra`, `from`, `term`, `commit`,
+`kind` = `{"regular":{prev,entries|chunk}}` | `{"snap": null | "notlast" | "broken" | {prevE,lastE,cluster}}`)
 (`send` takes `"match": null | n` = the destination's matchIndex, repair D62).
 -/
 namespace Driver.NodeSend
@@ -325,6 +326,38 @@ def handle (j : Json) : Except String Json := do
     match clusterAt s.self s.members s.log s.lastApplied with
     | none => return errJ .indexError
     | some c => return Json.mkObj [("cluster", nats (sortNats c))]
+  | "appendmsg" =>
+    let cfg ← jConf (← fld j "conf")
+    let s ← jState (← fld j "state")
+    let xj ← fld j "extra"
+    let x : Extra := ⟨← jOptNat (fldD xj "votedFor"), ← jNat (← fld xj "votes")⟩
+    let kj ← fld j "kind"
+    let kind ← (do
+      let regJ := fldD kj "regular"
+      if !regJ.isNull then
+        let chunkJ := fldD regJ "chunk"
+        let chunk ← if chunkJ.isNull then pure none else (do
+          let a ← jArr chunkJ
+          if a.size != 2 then throw "chunk: need 2 fields"
+          return some (← jLabel a[0]!, ← jSpans a[1]!))
+        let entJ := fldD regJ "entries"
+        let es ← if entJ.isNull then pure [] else jEntries entJ
+        return EnvMsg.regular { prev := ← jPrev (fldD regJ "prev"), entries := es, chunk := chunk }
+      else
+        let sj := fldD kj "snap"
+        if sj.isNull then return EnvMsg.snapshot .none
+        match sj.getStr? with
+        | .ok "notlast" => return EnvMsg.snapshot .notLast
+        | .ok "broken" => return EnvMsg.snapshot .broken
+        | _ => return EnvMsg.snapshot (.complete (← jEntry (← fld sj "prevE")) (← jEntry (← fld sj "lastE")) (← jNats (← fld sj "cluster"))))
+    let (x', s', r, obs) := appendMsgEnv cfg x s (← jNat (← fld j "from")) (← jNat (← fld j "term")) (← jNat (← fld j "commit")) kind
+    let obsJ := Json.mkObj [("deadline", Json.bool obs.deadlineReset),
+      ("termVote", match obs.storedTermVote with | none => Json.null | some (t, v) => Json.arr #[nat t, optNat v]),
+      ("commit", optNat obs.storedCommit)]
+    let xJ := Json.mkObj [("votedFor", optNat x'.votedFor), ("votes", nat x'.votes)]
+    match r with
+    | .error e => return Json.mkObj [("err", errStr e), ("state", stateJ s'), ("extra", xJ), ("obs", obsJ)]
+    | .ok o => return Json.mkObj [("out", outsJ o), ("state", stateJ s'), ("extra", xJ), ("obs", obsJ)]
   | "rounds" =>
     let cfg ← jConf (← fld j "conf")
     let s ← jState (← fld j "state")
